@@ -165,50 +165,73 @@ class RealEngine_real_rint(Contract):
         }
 
     def post(self, x, rm, result):
-        r = result
-        out = {
-            'float': cls_name(r) == 'Float',
-            'ctx_real': cls_name(r._ctx) == 'RealContext',
-        }
-        if cls_name(x) == 'Float':
-            fin = fl_finite(x)
-            R = rnd_at(x._real, None, -1, rm)
-            out.update({
-                # IEEE 754 5.9: roundToIntegral of NaN is NaN, of an infinity that infinity, zeros keep their sign
-                'nan': implies(x._isnan, r._isnan and not r._isinf),
-                'inf': implies(x._isinf, r._isinf and not r._isnan and r._real._s == x._real._s),
-                'finite': implies(fin, fl_finite(r)),
-                'sign': implies(fin, r._real._s == x._real._s),
-                # the operand rounded at position -1 (spec.real.rnd_at, the C01 definition)
-                'exp': implies(fin, r._real._exp == R[0]),
-                'c': implies(fin, r._real._c == R[1]),
-                'integer': implies(fin, r._real._exp >= 0),
-                'inexact_iff_changed': implies(fin, r._real._flags.inexact == R[2]),
-                'unchanged_if_integer': implies(fin and x._real._exp >= 0,
-                                                r._real._exp == x._real._exp and r._real._c == x._real._c),
-            })
-            return out
-        # Fraction operand
-        y = app_id(FID['gmpy2.mpfr'], (x,))
-        E = rto_exp(y_e(y), None, -1)
-        D = y_dig(y, E)
-        S = y_stk(y, E)
-        s = x < 0
-        if x != 0:
+        if cls_name(x) == 'Fraction' and x != 0:
+            y = app_id(FID['gmpy2.mpfr'], (x,))
+            E = rto_exp(y_e(y), None, -1)
+            D = y_dig(y, E)
+            S = y_stk(y, E)
+            s = x < 0
             apply_lemma('L5_core', s=s, dig=D, stk=S, A=pow2(-E), H=pow2(-2 - E), A2=pow2(1 - E), p=None, n=-1, rm=rm)
             apply_lemma('L5_scale', s=s, D=D, S=S, J=pow2(-1 - E), h=half_dig(x), st=half_stk(x), p=None, n=-1, rm=rm)
             apply_lemma('Rint_textbook', s=s, N=q_abs_num(x), d=frac_den(x), rm=rm)
-        T = rint_q(x, rm)
-        out.update({
-            'finite': fl_finite(r),
-            # IEEE 754 5.9 / 6.3: the sign of the operand is kept, also when the result is zero
-            'sign': r._real._s == s,
-            # the integer nearest to x in the sense of rm (textbook definition on the grid of the denominator)
-            'exp': r._real._exp == 0 or (x == 0 and r._real._c == 0),
-            'c': r._real._c == T[0],
-            'inexact_iff_changed': r._real._flags.inexact == T[1],
-        })
-        return out
+        return rint_clauses(x, rm, result)
 
     def raises(self, x, rm):
+        return {}
+
+
+
+class RealEngine_ceil(Contract):
+    """IEEE 754 5.9 roundToIntegralTowardPositive: the exact operand rounded to an integer in mode RTP"""
+    target = 'fpy2.number.engine.real:RealEngine.ceil'
+    params = {'self': 'RealEngine', 'x': 'Float | Fraction', 'ctx': 'Context'}
+    returns = 'Float'
+    properties = ['C02']
+
+    def post(self, x, ctx, result):
+        return rint_clauses(x, RoundingMode.RTP, result)
+
+    def raises(self, x, ctx):
+        return {}
+
+
+class RealEngine_floor(Contract):
+    """IEEE 754 5.9 roundToIntegralTowardNegative: the exact operand rounded to an integer in mode RTN"""
+    target = 'fpy2.number.engine.real:RealEngine.floor'
+    params = {'self': 'RealEngine', 'x': 'Float | Fraction', 'ctx': 'Context'}
+    returns = 'Float'
+    properties = ['C02']
+
+    def post(self, x, ctx, result):
+        return rint_clauses(x, RoundingMode.RTN, result)
+
+    def raises(self, x, ctx):
+        return {}
+
+
+class RealEngine_trunc(Contract):
+    """IEEE 754 5.9 roundToIntegralTowardZero: the exact operand rounded to an integer in mode RTZ"""
+    target = 'fpy2.number.engine.real:RealEngine.trunc'
+    params = {'self': 'RealEngine', 'x': 'Float | Fraction', 'ctx': 'Context'}
+    returns = 'Float'
+    properties = ['C02']
+
+    def post(self, x, ctx, result):
+        return rint_clauses(x, RoundingMode.RTZ, result)
+
+    def raises(self, x, ctx):
+        return {}
+
+
+class RealEngine_roundint(Contract):
+    """IEEE 754 5.9 roundToIntegralTiesToAway: the exact operand rounded to an integer in mode RNA"""
+    target = 'fpy2.number.engine.real:RealEngine.roundint'
+    params = {'self': 'RealEngine', 'x': 'Float | Fraction', 'ctx': 'Context'}
+    returns = 'Float'
+    properties = ['C02']
+
+    def post(self, x, ctx, result):
+        return rint_clauses(x, RoundingMode.RNA, result)
+
+    def raises(self, x, ctx):
         return {}
